@@ -355,6 +355,20 @@ def probe_ops(rng, g):
     other = g.p2_hand if g.turn.p1() else g.p1_hand
     cand = [{"k": "pass"}, {"k": "draw", "d": True}, {"k": "draw", "d": False},
             {"k": "knock", "knocks": False}, {"k": "knock", "knocks": True}]
+    if hand and len(hand) >= 6 and g.turn.is_knock():
+        # knocks that name something that is not a legal arrangement: a triple that is neither a set nor a run, a meld
+        # using a card the knocker does not hold, the same meld twice -- each must be refused and leave everything as it was
+        h = list(hand)
+        bad = [c for c in itertools.combinations(h[:7], 3) if not is_legal_meld(c)]
+        if bad:
+            cand.append({"k": "knock", "knocks": True, "melds": [list(rng.choice(bad))]})
+        good = [list(m) for m in all_melds(h)]
+        if good:
+            m = rng.choice(good)
+            cand.append({"k": "knock", "knocks": True, "melds": [m, list(rng.choice(bad))] if bad else [m, m]})
+            cand.append({"k": "knock", "knocks": True, "melds": [m, m]})
+            if other:
+                cand.append({"k": "knock", "knocks": True, "melds": [m[:-1] + [rng.choice(other)]]})
     if hand:
         cand.append({"k": "discard", "c": rng.choice(hand)})
     if other:
